@@ -120,6 +120,30 @@ m("C14-basemetrics-fresh", "v3/metric/environmental.go", "func (em *Environmenta
 m("C14-higher-handles-pr", "v3/metric/temporal.go", "\tswitch name {\n\tcase metricE: //Exploitability", "\tswitch name {\n\tcase metricPR:\n\t\ttm.PR = GetPrivilegesRequired(m[1])\n\tcase metricE: //Exploitability")
 m("C14-temporalmetrics-rebuild", "v2/metric/environmental.go", "func (m *Environmental) TemporalMetrics() *Temporal {\n\tif m == nil {\n\t\treturn nil\n\t}\n\treturn m.Temporal", "func (m *Environmental) TemporalMetrics() *Temporal {\n\tif m == nil {\n\t\treturn nil\n\t}\n\treturn &Temporal{Base: m.Base, names: map[string]bool{}}")
 m("C14-no-delegation", "v2/metric/environmental.go", "\tif err := m.Temporal.decodeOne(str); err != nil {", "\tif err := m.Temporal.Base.decodeOne(str); err != nil {")
+
+# ---- C15
+mm("C15-memo-score", [("v3/metric/base.go", "\tnames map[string]bool\n}\n\n// NewBase", "\tnames map[string]bool\n\tmemo  float64\n}\n\n// NewBase", 1), ("v3/metric/base.go", "\tif changed {\n\t\treturn roundUp(math.Min(1.08*(impact+ease), 10))\n\t}\n\treturn roundUp(math.Min(impact+ease, 10))", "\tif changed {\n\t\tbm.memo = roundUp(math.Min(1.08*(impact+ease), 10))\n\t\treturn bm.memo\n\t}\n\treturn roundUp(math.Min(impact+ease, 10))", 1)])
+mm("C15-lazy-reverse-table", [("v3/metric/scope.go", "// GetScope returns result of Scope metric\nfunc GetScope(s string) Scope {\n", "var scopeRev map[string]Scope\n\n// GetScope returns result of Scope metric\nfunc GetScope(s string) Scope {\n\tif scopeRev == nil {\n\t\tscopeRev = map[string]Scope{}\n\t\tfor k, v := range scopeMap {\n\t\t\tscopeRev[v] = k\n\t\t}\n\t}\n\tif k, ok := scopeRev[s]; ok {\n\t\treturn k\n\t}\n", 1)])
+mm("C15-package-level-names", [("v2/metric/base.go", "\t\tA:     AvailabilityImpactUnknown,\n\t\tnames: map[string]bool{},", "\t\tA:     AvailabilityImpactUnknown,\n\t\tnames: sharedNames,", 1), ("v2/metric/base.go", "// NewMetrics returns Metrics instance", "var sharedNames = map[string]bool{}\n\n// NewMetrics returns Metrics instance", 1)])
+m("C15-encode-normalises", "v3/metric/temporal.go", "\tbs, _ := tm.Base.Encode()\n", "\tbs, _ := tm.Base.Encode()\n\tif !tm.E.IsValid() {\n\t\ttm.E = ExploitabilityNotDefined\n\t}\n")
+m("C15-dup-code-order", "v2/metric/metrict-rc.go", "ReportConfidenceUncorroborated: \"UR\",", "ReportConfidenceUncorroborated: \"UC\",")
+mm("C15-time-dependent", [("v3/metric/misc.go", "import \"math\"", "import (\n\t\"math\"\n\t\"time\"\n)", 1), ("v3/metric/misc.go", "\tintInput := math.Round(input * 100000)\n", "\tintInput := math.Round(input * 100000)\n\tif time.Now().Year() > 2100 {\n\t\tintInput++\n\t}\n", 1)])
+m("C15-geterror-marks", "v2/metric/temporal.go", "\tif m.IsEmpty() {\n\t\treturn nil\n\t}\n\tswitch true {\n\tcase !m.E.IsValid()", "\tif m.IsEmpty() {\n\t\tm.names[\"checked\"] = false\n\t\treturn nil\n\t}\n\tswitch true {\n\tcase !m.E.IsValid()")
+m("C15-report-mutates-metric", "v3/report/report-base.go", "\tvec, _ := base.Encode()\n", "\tvec, _ := base.Encode()\n\tif base.Ver == metric.VUnknown {\n\t\tbase.Ver = metric.V3_1\n\t}\n")
+# ---- C16
+mm("C16-shared-template", [("v3/report/templete.go", "func executeTemplate(data interface{}, tempStr string) (io.Reader, error) {\n\tt, err := template.New(\"Repost\").Parse(tempStr)", "var sharedTmpl = template.New(\"Repost\")\n\nfunc executeTemplate(data interface{}, tempStr string) (io.Reader, error) {\n\tt, err := sharedTmpl.Parse(tempStr)", 1)])
+mm("C16-shared-buffer", [("v3/report/templete.go", "\tbuf := &bytes.Buffer{}\n\tif err := t.Execute(buf, data)", "\tbuf := scratch\n\tbuf.Reset()\n\tif err := t.Execute(buf, data)", 1), ("v3/report/templete.go", "func executeTemplate(", "var scratch = &bytes.Buffer{}\n\nfunc executeTemplate(", 1)])
+mm("C16-mutex-cache", [("v3/metric/attack-vector.go", "package metric\n", "package metric\n\nimport \"sync\"\n\nvar (\n\tavMu    sync.Mutex\n\tavCache = map[string]AttackVector{}\n)\n", 1), ("v3/metric/attack-vector.go", "func GetAttackVector(s string) AttackVector {\n", "func GetAttackVector(s string) AttackVector {\n\tavMu.Lock()\n\tif v, ok := avCache[s]; ok {\n\t\tavMu.Unlock()\n\t\treturn v\n\t}\n\tavMu.Unlock()\n", 1)])
+m("C16-goroutine", "v3/report/report-temporal.go", "\topts := newOptions(os...)\n\tvec, _ := temporal.Encode()", "\topts := newOptions(os...)\n\tdone := make(chan string, 1)\n\tgo func() { s, _ := temporal.Encode(); done <- s }()\n\tvec := <-done")
+# ---- C19
+m("C19-buf-with-error", "v3/report/templete.go", "\tif err := t.Execute(buf, data); err != nil {\n\t\treturn nil, errs.Wrap", "\tif err := t.Execute(buf, data); err != nil {\n\t\treturn buf, errs.Wrap")
+m("C19-trimspace", "v3/report/report-temporal.go", "\treturn executeTemplate(rep, str)", "\treturn executeTemplate(rep, strings.TrimSpace(str))")
+m("C19-wrap-loses-sentinel", "v3/report/templete.go", "\tif err != nil {\n\t\treturn nil, errs.Wrap(cvsserr.ErrInvalidTemplate, errs.WithCause(err), errs.WithContext(\"templete\", tempStr))\n\t}\n\tbuf", "\tif err != nil {\n\t\treturn nil, errs.Wrap(err, errs.WithContext(\"templete\", tempStr))\n\t}\n\tbuf")
+m("C19-no-nil-guard-env", "v3/report/report-environmental.go", "\tif rep == nil {\n\t\treturn nil, errs.Wrap(cvsserr.ErrNullPointer)\n\t}\n\treturn executeTemplate(rep, str)", "\treturn executeTemplate(rep, str)")
+m("C19-nil-reader-unchecked", "v3/report/templete.go", "\tif r == nil {\n\t\treturn \"\", errs.Wrap(cvsserr.ErrInvalidTemplate)\n\t}\n", "")
+m("C19-funcs", "v3/report/templete.go", "template.New(\"Repost\").Parse(tempStr)", "template.New(\"Repost\").Option(\"missingkey=zero\").Parse(tempStr)")
+m("C19-base-data", "v3/report/report-environmental.go", "\treturn executeTemplate(rep, str)", "\treturn executeTemplate(rep.TemporalReport, str)")
+m("C19-limitreader", "v3/report/templete.go", "io.Copy(tmpdata, r)", "io.Copy(tmpdata, io.LimitReader(r, 4096))")
 # ---- neutral refactorings
 m("neutral-c01-locals", "v3/metric/base.go", "\tease := 8.22 * bm.AV.Value() * bm.AC.Value() * bm.PR.Value(bm.S) * bm.UI.Value()\n", "\tav, ac := bm.AV.Value(), bm.AC.Value()\n\tease := bm.UI.Value() * (8.22 * av * ac) * bm.PR.Value(bm.S)\n")
 m("neutral-c01-else-chain", "v3/metric/base.go", "\tif changed {\n\t\treturn roundUp(math.Min(1.08*(impact+ease), 10))\n\t}\n\treturn roundUp(math.Min(impact+ease, 10))", "\tvar total float64\n\tif !changed {\n\t\ttotal = ease + impact\n\t} else {\n\t\ttotal = (impact + ease) * 1.08\n\t}\n\treturn roundUp(math.Min(10, total))")
